@@ -60,8 +60,19 @@ Definition counted (k : ckind) (agree : bool) : N := if called k agree then 1%N 
 (* file: 0 = the test's own file, 1 = another file.  SFailX = C++-style failing check (UtestShell::fail through the current
    terminator), SFailC = C-style (FAIL_TEXT_C_LOCATION, TestTerminatorWithoutExceptions), SCheck = a passing check (assertTrue),
    SCheckK k agree file line = a check of kind k at the location (file, line), which is NOT the TEST's own location. *)
+(* User try blocks.  A statement of a phase may be a try block of the test's own:
+     STry blk h hd       try { blk } catch (<h>) { hd }            the statements of blk and hd are [base] statements (no nesting)
+     SThrows e blk f l   CHECK_THROWS(<e>, helper()) at location (f, l), helper() = the statements blk (they may contain checks)
+   handler types: EStd = const std::exception&, EInt = int (the type of the foreign exception the scripted tests throw),
+   EUnrel = a class of the program's own that nothing thrown here is an instance of, HAll = catch (...). *)
+Inductive base := BNop | BCheck | BFailX (file line : N) | BFailC (file line : N) | BThrowStd | BThrowOther
+                | BCheckK (k : ckind) (agree : bool) (file line : N).
+Inductive ekind := EStd | EInt | EUnrel.
+Inductive hkind := HType (e : ekind) | HAll.
 Inductive stmt := SNop | SCheck | SFailX (file line : N) | SFailC (file line : N) | SThrowStd | SThrowOther
-                | SCheckK (k : ckind) (agree : bool) (file line : N).
+                | SCheckK (k : ckind) (agree : bool) (file line : N)
+                | STry (blk : list base) (h : hkind) (hd : list base)
+                | SThrows (e : ekind) (blk : list base) (file line : N).
 Record test := mkTest { t_ignored : bool; t_sel : bool; t_line : N;
                         t_setup : list stmt; t_body : list stmt; t_teardown : list stmt;
                         t_pre : list N; t_post : list N }.    (* lines of the failures the plugin adds before/after the test *)
@@ -93,11 +104,14 @@ Record scenario := mkScn { s_cfg : config; s_tests : list rtest }.
 (* ------------------------------------------------------------------ observations *)
 Record event := mkEv { e_test : N; e_phase : N; e_idx : N; e_depth : Z }.    (* one executed statement; phase 0/1/2 *)
 Record frec := mkF { f_test : N; f_file : N; f_line : N; f_kind : N }.       (* kind 0 check, 1 escaped exception, 3 plugin; file 2 = plugin file *)
-Inductive item := IEv (e : event) | IFail (f : frec) | IAfter (d : Z) (ctx_ok : bool).
+(* one executed statement INSIDE a try block: statement number u_sub of the compound statement number u_idx of the phase
+   (the statements of the block count from 0, those of the handler go on behind them) *)
+Record subev := mkSub { u_test : N; u_phase : N; u_idx : N; u_sub : N }.
+Inductive item := IEv (e : event) | IFail (f : frec) | IAfter (d : Z) (ctx_ok : bool) | ISub (u : subev).
 Record cnt := mkCnt { k_tests : N; k_run : N; k_checks : N; k_fail : N; k_filt : N; k_ign : N }.
 Record summary := mkSum { m_ok : bool; m_nfail : option N; m_tests : N; m_run : N; m_checks : N; m_ign : N; m_filt : N }.
 Record rep_obs := mkRep { r_events : list event; r_fails : list frec; r_after : list (Z * bool);
-                          r_summary : option summary; r_counters : option cnt }.
+                          r_summary : option summary; r_counters : option cnt; r_subs : list subev }.
 Record obs := mkObs { o_escaped : bool; o_ret : option Z; o_reps : list rep_obs }.
 
 (* ------------------------------------------------------------------ machine state *)
@@ -146,6 +160,45 @@ Definition restore_jump_buffer (s : st) : st := set_depth (depth s - 1) s.
 Definition add_failure (f : frec) (s : st) : st := count one_fail (emit (IFail f) s).
 Definition exc_failure (i : N) (t : test) : frec := mkF i 0 (t_line t) 1.      (* UnexpectedExceptionFailure: the test's own location *)
 
+(* ---- inside a user try block *)
+(* which handler catches which exception object.  The object a failing C++-style check throws to leave the phase is a
+   CppUTestFailedException (include/CppUTest/Utest.h): a plain class WITHOUT a base class -- in particular not a std::exception --
+   so no handler for a class of the standard library or of the program's own matches it; only catch (...) does. *)
+Definition catches_type (e : ekind) (x : exn) : bool :=
+  match e, x with EStd, XStd => true | EInt, XOther => true | _, _ => false end.
+Definition catches (h : hkind) (x : exn) : bool := match h with HAll => true | HType e => catches_type e x end.
+
+(* statement number j of the try block that is statement k of the phase: the same assert functions and terminators as at top level *)
+Definition exec_base (exc : bool) (i ph k j : N) (b : base) (s : st) : st * outcome :=
+  let s := emit (ISub (mkSub i ph k j)) s in
+  match b with
+  | BNop => (s, ONormal)
+  | BCheck => (count one_check s, ONormal)
+  | BFailX f l => let s := add_failure (mkF i f l 0) (count one_check s) in
+                  if exc then (s, OThrow XFailed) else long_jmp s
+  | BFailC f l => long_jmp (add_failure (mkF i f l 0) (count one_check s))
+  | BThrowStd => (s, OThrow XStd)
+  | BThrowOther => (s, OThrow XOther)
+  | BCheckK kd a f l =>
+      if called kd a then
+        let s := count one_check s in
+        if fn_passes kd a then (s, ONormal)
+        else let s := add_failure (mkF i f l 0) s in
+             if c_style kd then long_jmp s
+             else if exc then (s, OThrow XFailed) else long_jmp s
+      else (s, ONormal)
+  end.
+Fixpoint exec_bases (exc : bool) (i ph k j : N) (l : list base) (s : st) : st * outcome :=
+  match l with
+  | [] => (s, ONormal)
+  | b :: r => let '(s', o) := exec_base exc i ph k j b s in
+              match o with ONormal => exec_bases exc i ph k (j + 1)%N r s' | _ => (s', o) end
+  end.
+(* UtestShell::fail(text, file, line) through the current terminator *)
+Definition fail_here (exc : bool) (i f l : N) (s : st) : st * outcome :=
+  let s := add_failure (mkF i f l 0) (count one_check s) in
+  if exc then (s, OThrow XFailed) else long_jmp s.
+
 Definition exec_stmt (exc : bool) (i ph k : N) (x : stmt) (s : st) : st * outcome :=
   let s := emit (IEv (mkEv i ph k (depth s))) s in
   match x with
@@ -164,6 +217,23 @@ Definition exec_stmt (exc : bool) (i ph k : N) (x : stmt) (s : st) : st * outcom
              if c_style k then long_jmp s                                       (* TestTerminatorWithoutExceptions *)
              else if exc then (s, OThrow XFailed) else long_jmp s               (* NormalTestTerminator *)
       else (s, ONormal)                                                         (* the macro found the comparison true: no call *)
+  | STry blk h hd =>                                                            (* try { blk } catch (h) { hd } *)
+      let '(s1, o1) := exec_bases exc i ph k 0 blk s in
+      match o1 with
+      | OThrow e => if catches h e then exec_bases exc i ph k (N.of_nat (length blk)) hd s1       (* the handler; what it does is what the statement does *)
+                    else (s1, o1)                                                                 (* no handler matches: the exception goes on *)
+      | _ => (s1, o1)                                                           (* the block completed, or a longjmp passed over the handlers *)
+      end
+  | SThrows ex blk f l =>
+      (* include/CppUTest/UtestMacros.h CHECK_THROWS(expected, expression):
+           try { (expression); } catch (const expected&) { caught_expected = true; } catch (...) { failure_msg = "... threw a different type"; }
+           if (!caught_expected) UtestShell::getCurrent()->fail(failure_msg, __FILE__, __LINE__); else UtestShell::getCurrent()->countCheck(); *)
+      let '(s1, o1) := exec_bases exc i ph k 0 blk s in
+      match o1 with
+      | OJump _ => (s1, o1)
+      | OThrow e => if catches_type ex e then (count one_check s1, ONormal) else fail_here exc i f l s1
+      | ONormal => fail_here exc i f l s1
+      end
   end.
 Fixpoint exec_stmts (exc : bool) (i ph k : N) (l : list stmt) (s : st) : st * outcome :=
   match l with
@@ -253,6 +323,7 @@ Definition mk_summary (c : cnt) : summary :=
 
 Fixpoint events_of (l : list item) : list event := match l with [] => [] | IEv e :: r => e :: events_of r | _ :: r => events_of r end.
 Fixpoint fails_of (l : list item) : list frec := match l with [] => [] | IFail f :: r => f :: fails_of r | _ :: r => fails_of r end.
+Fixpoint subs_of (l : list item) : list subev := match l with [] => [] | ISub u :: r => u :: subs_of r | _ :: r => subs_of r end.
 Fixpoint afters_of (l : list item) : list (Z * bool) := match l with [] => [] | IAfter d b :: r => (d, b) :: afters_of r | _ :: r => afters_of r end.
 
 Definition fresh (s : st) : st := mkSt (depth s) (overflow s) (cur s) czero [].       (* a new TestResult per repetition *)
@@ -261,7 +332,8 @@ Definition is_normal (o : outcome) : bool := match o with ONormal => true | _ =>
 Definition rep_obs_of (cfg : config) (s : st) (o : outcome) : rep_obs :=
   mkRep (events_of (out s)) (fails_of (out s)) (afters_of (out s))
         (if is_normal o then Some (mk_summary (cn s)) else None)
-        (if c_cli cfg then None else Some (cn s)).
+        (if c_cli cfg then None else Some (cn s))
+        (subs_of (out s)).
 
 (* CommandLineArguments::setRepeatCount: repeat_ = AtoI(text after -r); if (0 == repeat_) repeat_ = 2;   ("-r" alone and "-r0" repeat twice) *)
 Definition eff_repeat (n : N) : N := if (n =? 0)%N then 2%N else n.
@@ -300,10 +372,80 @@ Definition run (exc : bool) (scn : scenario) : obs := fst (run_from exc scn st0)
 
 (* ------------------------------------------------------------------ spec: what the property demands of an observation.
    Written from the program text alone (no machine state, no jump bookkeeping). *)
-Definition is_pass (x : stmt) : bool := match x with SNop | SCheck => true | SCheckK k a _ _ => passes k a | _ => false end.
-Definition is_throw (x : stmt) : bool := match x with SThrowStd | SThrowOther => true | _ => false end.
-Definition counts_check (x : stmt) : bool :=
-  match x with SCheck | SFailX _ _ | SFailC _ _ => true | SCheckK k a _ _ => (0 <? counted k a)%N | _ => false end.
+(* ---- a user try block, read from the program text (C++ [except.handle]; there are no try blocks in a build without exceptions).
+   A statement list is left in one of three ways: it completes, a check fails C-style (longjmp: no handler of the program is
+   entered), or an exception object is thrown -- a std exception, the foreign one, or the object of a failing C++-style check. *)
+Definition b_pass (b : base) : bool := match b with BNop | BCheck => true | BCheckK k a _ _ => passes k a | _ => false end.
+Definition b_counts (b : base) : N :=
+  match b with BCheck | BFailX _ _ | BFailC _ _ => 1%N | BCheckK k a _ _ => counted k a | _ => 0%N end.
+Definition b_failure (i : N) (b : base) : list frec :=
+  match b with
+  | BFailX f l | BFailC f l => [mkF i f l 0]
+  | BCheckK k a f l => if passes k a then [] else [mkF i f l 0]
+  | _ => []
+  end.
+Fixpoint b_executed (l : list base) : list base :=
+  match l with [] => [] | b :: r => if b_pass b then b :: b_executed r else [b] end.
+Fixpoint b_ending (l : list base) : option base :=
+  match l with [] => None | b :: r => if b_pass b then b_ending r else Some b end.
+Inductive how := HowDone | HowJump | HowThrow (e : exn).
+Definition b_how (b : base) : how :=
+  match b with
+  | BFailX _ _ => HowThrow XFailed
+  | BFailC _ _ => HowJump
+  | BThrowStd => HowThrow XStd
+  | BThrowOther => HowThrow XOther
+  | BCheckK k a _ _ => if passes k a then HowDone else if c_style k then HowJump else HowThrow XFailed
+  | _ => HowDone
+  end.
+Definition bases_how (l : list base) : how := match b_ending l with None => HowDone | Some b => b_how b end.
+(* try { blk } catch (h) { hd }: the handler is entered exactly when the block throws an object it catches *)
+Definition handler_entered (blk : list base) (h : hkind) : bool :=
+  match bases_how blk with HowThrow e => catches h e | _ => false end.
+Definition try_how (blk : list base) (h : hkind) (hd : list base) : how :=
+  match bases_how blk with HowThrow e => if catches h e then bases_how hd else HowThrow e | w => w end.
+(* CHECK_THROWS(ex, blk): passes when blk throws an ex; is not reached when a C-style check of blk fails; fails otherwise *)
+Definition throws_how (ex : ekind) (blk : list base) : how :=
+  match bases_how blk with
+  | HowJump => HowJump
+  | HowThrow e => if catches_type ex e then HowDone else HowThrow XFailed
+  | HowDone => HowThrow XFailed
+  end.
+Definition stmt_how (x : stmt) : how :=
+  match x with
+  | SNop | SCheck => HowDone
+  | SFailX _ _ => HowThrow XFailed
+  | SFailC _ _ => HowJump
+  | SThrowStd => HowThrow XStd
+  | SThrowOther => HowThrow XOther
+  | SCheckK k a _ _ => if passes k a then HowDone else if c_style k then HowJump else HowThrow XFailed
+  | STry blk h hd => try_how blk h hd
+  | SThrows ex blk _ _ => throws_how ex blk
+  end.
+Definition how_done (w : how) : bool := match w with HowDone => true | _ => false end.
+(* an exception of the program's own (not the exit of a failing check) leaves the statement *)
+Definition how_escapes (w : how) : bool := match w with HowThrow XStd | HowThrow XOther => true | _ => false end.
+Definition sumN {A} (f : A -> N) (l : list A) : N := fold_right (fun x a => (f x + a)%N) 0%N l.
+
+Definition is_pass (x : stmt) : bool :=
+  match x with
+  | SNop | SCheck => true
+  | SCheckK k a _ _ => passes k a
+  | STry blk h hd => how_done (try_how blk h hd)
+  | SThrows ex blk _ _ => how_done (throws_how ex blk)
+  | _ => false
+  end.
+(* the statement uses the exception machinery (it cannot be written in a build without exceptions) *)
+Definition is_throw (x : stmt) : bool := match x with SThrowStd | SThrowOther | STry _ _ _ | SThrows _ _ _ _ => true | _ => false end.
+(* what the statement adds to "checks" when it is executed *)
+Definition n_checks (x : stmt) : N :=
+  match x with
+  | SCheck | SFailX _ _ | SFailC _ _ => 1%N
+  | SCheckK k a _ _ => counted k a
+  | STry blk h hd => (sumN b_counts (b_executed blk) + (if handler_entered blk h then sumN b_counts (b_executed hd) else 0))%N
+  | SThrows ex blk _ _ => (sumN b_counts (b_executed blk) + (match bases_how blk with HowJump => 0 | _ => 1 end))%N
+  | _ => 0%N
+  end.
 (* the statements of a phase that execute: up to and including the first one that does not pass *)
 Fixpoint executed (l : list stmt) : list stmt :=
   match l with [] => [] | x :: r => if is_pass x then x :: executed r else [x] end.
@@ -321,18 +463,41 @@ Definition stmt_failure (i : N) (t : test) (x : stmt) : list frec :=
   | SFailX f l | SFailC f l => [mkF i f l 0]
   | SThrowStd | SThrowOther => [mkF i 0 (t_line t) 1]
   | SCheckK k a f l => if passes k a then [] else [mkF i f l 0]         (* a failed check: once, at the location it was given *)
+  | STry blk h hd =>
+      flat_map (b_failure i) (b_executed blk)
+      ++ (if handler_entered blk h then flat_map (b_failure i) (b_executed hd) else [])
+      ++ (if how_escapes (try_how blk h hd) then [mkF i 0 (t_line t) 1] else [])
+  | SThrows ex blk f l =>
+      flat_map (b_failure i) (b_executed blk)
+      ++ (match bases_how blk with
+          | HowJump => []
+          | HowThrow e => if catches_type ex e then [] else [mkF i f l 0]
+          | HowDone => [mkF i f l 0]
+          end)
   | _ => []
   end.
+(* the statements INSIDE the compound statement number k of phase ph that execute: of the block up to and including the first one
+   that does not pass; of the handler only if it is entered *)
+Definition stmt_subs (i ph k : N) (x : stmt) : list subev :=
+  match x with
+  | STry blk h hd =>
+      map (fun jb => mkSub i ph k (fst jb)) (number 0 (b_executed blk))
+      ++ (if handler_entered blk h then map (fun jb => mkSub i ph k (fst jb)) (number (N.of_nat (length blk)) (b_executed hd)) else [])
+  | SThrows _ blk _ _ => map (fun jb => mkSub i ph k (fst jb)) (number 0 (b_executed blk))
+  | _ => []
+  end.
+Definition want_subs (i : N) (t : test) : list subev :=
+  flat_map (fun p => flat_map (fun kx => stmt_subs i (fst p) (fst kx) (snd kx)) (number 0 (executed (snd p)))) (phases t).
 Definition want_fails (i : N) (t : test) : list frec :=
   map (fun l => mkF i 2 l 3) (t_pre t)
   ++ flat_map (fun p => flat_map (stmt_failure i t) (executed (snd p))) (phases t)
   ++ map (fun l => mkF i 2 l 3) (t_post t).
-Definition want_checks (t : test) : N :=
-  N.of_nat (length (filter counts_check (flat_map (fun p => executed (snd p)) (phases t)))).
+Definition want_checks (t : test) : N := sumN n_checks (flat_map (fun p => executed (snd p)) (phases t)).
 
 Definition started (cfg : config) (it : N * test) : bool := selected cfg (snd it) && runs cfg (snd it).
 Definition nb {A} (f : A -> bool) (l : list A) : N := N.of_nat (length (filter f l)).
 Definition rep_events (cfg : config) (ts : list (N * test)) := flat_map (fun it => want_events (fst it) (snd it)) (filter (started cfg) ts).
+Definition rep_subs (cfg : config) (ts : list (N * test)) := flat_map (fun it => want_subs (fst it) (snd it)) (filter (started cfg) ts).
 Definition rep_fails (cfg : config) (ts : list (N * test)) := flat_map (fun it => want_fails (fst it) (snd it)) (filter (started cfg) ts).
 Definition rep_counts (cfg : config) (ts : list (N * test)) : cnt :=
   mkCnt (N.of_nat (length ts))
@@ -349,6 +514,8 @@ Definition ev3_eqb (a b : N * N * N) : bool :=
   let '(a1, a2, a3) := a in let '(b1, b2, b3) := b in ((a1 =? b1) && (a2 =? b2) && (a3 =? b3))%N.
 Definition frec_eqb (a b : frec) : bool :=
   ((f_test a =? f_test b) && (f_file a =? f_file b) && (f_line a =? f_line b) && (f_kind a =? f_kind b))%N.
+Definition sub_eqb (a b : subev) : bool :=
+  ((u_test a =? u_test b) && (u_phase a =? u_phase b) && (u_idx a =? u_idx b) && (u_sub a =? u_sub b))%N.
 Definition cnt_eqb (a b : cnt) : bool :=
   ((k_tests a =? k_tests b) && (k_run a =? k_run b) && (k_checks a =? k_checks b) && (k_fail a =? k_fail b)
    && (k_filt a =? k_filt b) && (k_ign a =? k_ign b))%N.
@@ -368,12 +535,30 @@ Definition rep_ok (cfg : config) (ts : list (N * test)) (r : rep_obs) : bool :=
   && (N.of_nat (length (r_after r)) =? nb (fun it => selected cfg (snd it)) ts)%N
   && forallb (fun a => (fst a =? 0) && snd a) (r_after r)                                                   (* depth and context restored after every test *)
   && match r_summary r with Some m => summary_ok c m | None => false end
-  && match r_counters r with Some k => cnt_eqb k c | None => true end.
+  && match r_counters r with Some k => cnt_eqb k c | None => true end
+  && list_eqb sub_eqb (r_subs r) (rep_subs cfg ts).                                                        (* inside the try blocks: nothing behind a failing check, no handler for it *)
 
 Definition has_throw (t : test) : bool := existsb is_throw (t_setup t ++ t_body t ++ t_teardown t).
 (* a throw statement somewhere in the program text, in whichever repetition it would be executed *)
 Definition rstmt_throws (x : rstmt) : bool := match x with RS a => is_throw a | RIf _ a b => is_throw a || is_throw b end.
 Definition rhas_throw (t : rtest) : bool := existsb rstmt_throws (rt_setup t ++ rt_body t ++ rt_teardown t).
+
+(* A handler that can intercept the exit of a failing check.  In a build with exceptions a C++-style check leaves the phase by
+   throwing; the language hands every exception object to an enclosing catch (...) -- whatever its class -- and the handler decides
+   what happens next (swallow, rethrow, fail again).  No exception-based exit can prevent that, and a program that catches (...)
+   around a failing check has taken the exit path into its own hands: its phases neither complete, nor fail a check, nor throw in
+   the sense of the property's quantifier.  CHECK_THROWS contains a catch (...) of its own.  Such programs (a C++-style check that
+   can fail inside a try block with a catch (...), or inside the expression of CHECK_THROWS) are outside what [spec] judges; a
+   handler for std::exception or for any other class is NOT such a handler: the exit of a failing check must pass it. *)
+Definition b_cxx_fail (b : base) : bool := match b_how b with HowThrow XFailed => true | _ => false end.
+Definition intercepts (x : stmt) : bool :=
+  match x with
+  | STry blk HAll _ => existsb b_cxx_fail blk
+  | SThrows _ blk _ _ => existsb b_cxx_fail blk
+  | _ => false
+  end.
+Definition rstmt_intercepts (x : rstmt) : bool := match x with RS a => intercepts a | RIf _ a b => intercepts a || intercepts b end.
+Definition rintercepts (t : rtest) : bool := existsb rstmt_intercepts (rt_setup t ++ rt_body t ++ rt_teardown t).
 
 (* the repetitions: number j (from 0) runs the program as it behaves in repetition j *)
 Definition rep_index (n : N) : list N := map N.of_nat (seq 0 (N.to_nat n)).
@@ -389,6 +574,7 @@ Definition spec (scn : scenario) (o : obs) : bool :=
   let cfg := s_cfg scn in
   let n := if c_cli cfg then eff_repeat (c_repeat cfg) else 1%N in
   if c_rethrow cfg && existsb rhas_throw (s_tests scn) then true      (* outside the property's quantifier, see DESIGN C01 scope decision *)
+  else if existsb rintercepts (s_tests scn) then true                 (* catch (...) around a C++-style check that can fail: see [intercepts] *)
   else
     negb (o_escaped o)
     && (N.of_nat (length (o_reps o)) =? n)%N
